@@ -60,7 +60,7 @@ func dedupeStates(ss []state) []state {
 func traceKey(t *trace) string {
 	s := ""
 	for ; t != nil; t = t.prev {
-		s += t.ev.name + "@" + itoa(int(t.ev.call.Pos())) + ","
+		s += t.ev.name + "@" + itoa(int(t.ev.pos)) + ","
 	}
 	return s
 }
